@@ -16,11 +16,11 @@ CHECK = {
     "exhaustive": {"quick": False, "thorough": False},
     "stages": [
         {"name": "harvest", "variant": "asan", "harness": "c08_roundtrip.cpp",
-         "cases": {"quick": 320, "thorough": 8000},
+         "cases": {"quick": 160, "thorough": 3000},
          "params": {"steps": {"quick": 9, "thorough": 14}, "maxTris": {"quick": 1500, "thorough": 6000}},
          "case_timeout": 300},
         {"name": "obj", "variant": "asan", "harness": "c08_roundtrip.cpp",
-         "cases": {"quick": 200, "thorough": 2000},
+         "cases": {"quick": 75, "thorough": 500},
          "case_timeout": 120},
     ],
     "assumptions": [
